@@ -402,14 +402,23 @@ impl ArrayLike for ReverseArray {
 	}
 
 	fn get(&self, index: usize) -> Result<Option<Val>> {
+		if index >= self.0.len() {
+			return Ok(None);
+		}
 		self.0.get(self.0.len() - index - 1)
 	}
 
 	fn get_lazy(&self, index: usize) -> Option<Thunk<Val>> {
+		if index >= self.0.len() {
+			return None;
+		}
 		self.0.get_lazy(self.0.len() - index - 1)
 	}
 
 	fn get_cheap(&self, index: usize) -> Option<Val> {
+		if index >= self.0.len() {
+			return None;
+		}
 		self.0.get_cheap(self.0.len() - index - 1)
 	}
 	fn is_cheap(&self) -> bool {
